@@ -53,4 +53,7 @@ Verdicts == /\ Progress(<<pc, wname, net>>)
             /\ Check("ReturnsComplete", ReturnsComplete, FALSE)
             /\ Check("ReuseWithoutNetwork", T.init_final_complete => net = 0, FALSE)
             /\ OkSoFar
+\* fault-point coverage: which control states of the specification the injected faults hit
+\* (an exception first closes the file being written - the Close event - and then reaches the caller - Fail)
+FaultPcs == (l <= NEv /\ Ev.e \in {"Crash", "Fail", "Close"}) => PrintT("JSON " \o ToJson([faultpc |-> pc]))
 =============================================================================
